@@ -55,7 +55,9 @@ type Conn struct {
 	lastTO    time.Time // instant of the last read timeout
 	spin      int       // consecutive read timeouts at that same instant
 	livelock  atomic.Bool
-	cut       bool
+	// CloseDelay makes Close take this long (the connection stays open meanwhile).
+	CloseDelay time.Duration
+	cut        bool
 
 	// client -> server (wmu)
 	wmu        sync.Mutex
@@ -308,6 +310,10 @@ func (c *Conn) Close() error {
 	c.CloseCalls++
 	c.Calls = append(c.Calls, Call{Seq: int(c.seq.Add(1)), Op: "close", At: time.Now()})
 	c.cmu.Unlock()
+	if c.CloseDelay > 0 && !c.closed.Load() {
+		// a close that takes time (TLS close-notify, linger): the connection counts as open until it is over
+		time.Sleep(c.CloseDelay)
+	}
 	if c.closed.Swap(true) {
 		return &net.OpError{Op: "close", Net: "sim", Err: net.ErrClosed}
 	}
